@@ -805,6 +805,10 @@ func c16Directed() []c16Case {
 	// self-destruct of a contract with zero balance but storage; re-created later
 	cs = append(cs, mk("directed/suicide_storage", []c16Acct{contract(11, "0"), plain(12, "7")}, cat([]c16Op{
 		{K: "suicide", A: 11}, {K: "finalise"}}, sw, []c16Op{{K: "addbal", A: 11, Amt: "1"}}, sw, []c16Op{{K: "finalise"}}, sw)...))
+	// value received by a self-destructed account later in the same transaction (go-ethereum burns it)
+	cs = append(cs, mk("directed/suicide_then_funded", []c16Acct{contract(11, "0"), plain(12, "7")}, cat([]c16Op{
+		{K: "suicide", A: 11}, {K: "subbal", A: 12, Amt: "3"}, {K: "addbal", A: 11, Amt: "3"}, {K: "getbal", A: 11},
+		{K: "finalise"}}, sw, []c16Op{{K: "blockcommit"}}, sw)...))
 	// CreateAccount over an existing account with storage
 	cs = append(cs, mk("directed/create_over", []c16Acct{contract(11, "5")}, cat([]c16Op{
 		{K: "create", A: 11}}, sw, []c16Op{{K: "finalise"}}, sw)...))
